@@ -67,6 +67,19 @@ def world():
     class B2:
         pass
 
+    # a type cycle RN -> RL -> RN that a converter registered for RL hides: whether RN is recursive depends on the registry
+    @dataclass
+    class RL:
+        node: Optional["RN"] = None
+
+    @dataclass
+    class RN:
+        links: List[RL] = field(default_factory=list)
+    import typing as _t
+    RL.__annotations__["node"] = Optional[RN]
+    try: RL.__dataclass_fields__["node"].type = Optional[RN]
+    except Exception: pass
+
     class W:
         def __init__(self, v): self.v = v
         def __eq__(self, o): return isinstance(o, W) and o.v == self.v
@@ -86,6 +99,9 @@ def world():
         "deser_B": lambda: deserialize(B, {"x": -3}),
         "ser_B": lambda: serialize(B, B(4)),
         "sschema_B": lambda: serialization_schema(B),
+        "deser_RN": lambda: deserialize(RN, {"links": [{"node": {"links": []}}]}),
+        "ser_RN": lambda: serialize(RN, RN([RL(RN([]))])),
+        "dschema_RN": lambda: deserialization_schema(RN),
         # two types that `typing` considers equal (one lru_cache key) with different first alternatives
         "deser_Union[B1,B2]": lambda: deserialize(Union[B1, B2], {}),
         "deser_Union[B2,B1]": lambda: deserialize(Union[B2, B1], {}),
@@ -112,6 +128,10 @@ def world():
              lambda: deserializer(Conversion(W, source=int, target=W)) if b else reset_deserializers(W)),
             ("serializer(W)/reset_serializer(W)", ("CacheAwareDict", "__setitem__" if b else "__delitem__"),
              lambda: serializer(Conversion(lambda w: w.v, source=W, target=int)) if b else reset_serializer(W)),
+            ("deserializer(RL)/reset_deserializers(RL): hides / shows the cycle RN -> RL -> RN", ("CacheAwareDict", "__setitem__" if b else "__delitem__"),
+             lambda: deserializer(Conversion(lambda i: RL(None), source=int, target=RL)) if b else reset_deserializers(RL)),
+            ("serializer(RL)/reset_serializer(RL): hides / shows the cycle", ("CacheAwareDict", "__setitem__" if b else "__delitem__"),
+             lambda: serializer(Conversion(lambda l: 0, source=RL, target=int)) if b else reset_serializer(RL)),
             ("alias(A)", ("CacheAwareDict", "__setitem__"), lambda: alias((lambda s: s.upper()) if b else (lambda s: s))(A)),
             ("order(A)", ("CacheAwareDict", "__setitem__"), lambda: order({"other": order(-1 if b else 1)})(A)),
             ("schema(A)", ("registry", "apischema.schemas._schemas"), lambda: schema(max_props=1 if b else 5)(A)),
@@ -183,6 +203,31 @@ def run(prop, seed, budget, ctx):
                         failures.append({"kind": "P", "mode": "wiring", "point": ["CacheAwareDict", mut], "op": f"{m.name}.{rname}.{mut}", "k_ok": True,
                                          "why": [f"registry-mutation-does-not-reset-the-caches:{m.name}.{rname}.{mut}"]})
                     distinct.add(("wiring", m.name, rname, mut))
+    # mode 0b: whether a type is recursive depends on the registry (a converter hides a cycle): fresh classes whose *first* use
+    # happens while the cycle is hidden, then the converter is removed (and the other way round)
+    from apischema import deserialize as _des, serialize as _ser, deserializer as _dz, serializer as _sz
+    from apischema.conversions import Conversion as _Conv, reset_deserializers as _rd, reset_serializer as _rs
+    for k in range(4 * budget):
+        ns = {}
+        exec("from dataclasses import dataclass, field\nfrom typing import *\n"
+             f"@dataclass\nclass RL{k}:\n    node: Optional['RN{k}'] = None\n\n@dataclass\nclass RN{k}:\n    links: List[RL{k}] = field(default_factory=list)\n", ns)
+        RLk, RNk = ns[f"RL{k}"], ns[f"RN{k}"]
+        RLk.__annotations__["node"] = Optional[RNk]; RLk.__dataclass_fields__["node"].type = Optional[RNk]
+        hidden_first = k % 2 == 0
+        obs = {"deser": lambda: _des(RNk, {"links": [{"node": {"links": []}}]}), "ser": lambda: _ser(RNk, RNk([RLk(RNk([]))]))}
+        hide = lambda: (_dz(_Conv(lambda i: RLk(None), source=int, target=RLk)), _sz(_Conv(lambda l: 0, source=RLk, target=int)))
+        show = lambda: (_rd(RLk), _rs(RLk))
+        steps = [hide, show] if hidden_first else [show, hide, show]
+        for st in steps:
+            st()
+            for oname, ofn in obs.items():
+                evaluations += 1; hist["recursion-status-history"] += 1
+                a = outcome(ofn); f = fresh(ofn)
+                if a != f:
+                    failures.append({"kind": "P", "mode": "recursion-status", "point": ["CacheAwareDict", "__delitem__"], "observation": oname + " of a class recursive through a convertible class",
+                                     "history": ["converter registered (cycle hidden)", "first use", "converter removed", "use"] if hidden_first else ["use", "converter registered", "use", "converter removed", "use"],
+                                     "cached": list(a), "cold_start": list(f), "k_ok": True, "why": ["stale-recursion-analysis-after-a-registry-change"]})
+        distinct.add(("recursion-status", k))
     # mode 1: targeted (mutation, value, observation) triples
     for i in range(n_ops):
         for b in (True, False):
@@ -272,6 +317,7 @@ POINT_KF = {
 
 def is_known(kid, case):
     if case.get("kind") != "P": return False
+    if case.get("mode") == "recursion-status": return False
     if case.get("mode") in ("targeted", "key-clash", "wiring"):
         return POINT_KF.get(tuple(case["point"])) == kid
     if case.get("mode") == "history" and kid == "KF13" and case.get("observation", "").startswith("deser_Union["):
